@@ -1,8 +1,789 @@
-//! C03 — not implemented yet (stub).
-use crate::engine::Opts;
-pub fn main(_opts: &Opts) -> i32 {
-    eprintln!("C03: check not implemented");
-    2
+//! C03 — N-Triples / N-Quads serialisation round-trips every dataset exactly.
+//!
+//! generator: strict / RDF-star datasets (0..12 quads) over grammar-generated IRIs, blank node
+//!            labels, BCP47 tags, arbitrary Unicode lexical forms, nested quoted triples;
+//! system:    NqSerializer / NtSerializer  ->  sophia nq / gnq / nt parsers;
+//! oracle:    (1) the input itself (round trip, term by term, multiset comparison),
+//!            (2) line structure of the text (one '\n'-terminated statement per line),
+//!            (3) the independent W3C N-Quads reader `nqread` must read the same quads.
+use crate::engine::*;
+use crate::gen::*;
+use crate::model::*;
+use crate::nqread;
+use proptest::prelude::*;
+use serde::{Deserialize, Serialize};
+use sophia_api::quad::Spog;
+use sophia_api::serializer::{QuadSerializer, Stringifier, TripleSerializer};
+use sophia_api::source::{QuadSource, TripleSource};
+use sophia_api::term::{BnodeId, LanguageTag, SimpleTerm};
+use sophia_turtle::parser::{gnq, nq, nt};
+use sophia_turtle::serializer::nq::NqSerializer;
+use sophia_turtle::serializer::nt::NtSerializer;
+
+#[derive(Clone, Debug, Serialize, Deserialize)]
+pub struct Case {
+    pub quads: Vec<MQ>,
+}
+
+pub struct C03;
+
+// ---------------------------------------------------------------- generators
+
+/// PN_CHARS_U | [0-9]   (without ':' which sophia's BnodeId does not accept)
+fn label_first() -> Vec<char> {
+    vec![
+        'a', 'Z', '_', '0', '9', 'r', '\u{e9}', '\u{c0}', '\u{d6}', '\u{d8}', '\u{2ff}', '\u{370}', '\u{37d}', '\u{37f}',
+        '\u{1fff}', '\u{200c}', '\u{200d}', '\u{2070}', '\u{218f}', '\u{2c00}', '\u{2fef}', '\u{3001}', '\u{d7ff}',
+        '\u{f900}', '\u{fdcf}', '\u{fdf0}', '\u{fffd}', '\u{10000}', '\u{effff}', '\u{3b1}',
+    ]
+}
+/// PN_CHARS
+fn label_rest() -> Vec<char> {
+    let mut v = label_first();
+    v.extend(['-', '5', '\u{b7}', '\u{300}', '\u{36f}', '\u{203f}', '\u{2040}', 'b']);
+    v
+}
+/// BLANK_NODE_LABEL as accepted by `BnodeId::new`: first (PN_CHARS | '.' PN_CHARS)*
+fn label_gen() -> BoxedStrategy<String> {
+    (
+        pick(label_first()),
+        prop::collection::vec((prop::bool::weighted(0.3), pick(label_rest())), 0..6),
+    )
+        .prop_map(|(f, rest)| {
+            let mut s = String::new();
+            s.push(f);
+            for (dot, c) in rest {
+                if dot {
+                    s.push('.');
+                }
+                s.push(c);
+            }
+            s
+        })
+        .boxed()
+}
+fn label() -> BoxedStrategy<String> {
+    let mut pool = bnode_labels_plain();
+    pool.extend(bnode_labels_exotic());
+    pool.extend(["a.b.c.d", "a-", "a.-", "0.0", "_._", "a\u{300}", "a.\u{b7}"].iter().map(|s| s.to_string()));
+    prop_oneof![3 => pick(pool), 2 => label_gen()].boxed()
+}
+
+fn pchars() -> Vec<&'static str> {
+    vec![
+        "a", "Z", "0", "-", ".", "_", "~", "!", "$", "&", "'", "(", ")", "*", "+", ",", ";", "=", ":", "@", "%41", "%c3%A9",
+        "%00", "%2F", "\u{e9}", "\u{a0}", "\u{d7ff}", "\u{f900}", "\u{fdcf}", "\u{fdf0}", "\u{ffef}", "\u{10000}", "\u{1fffd}",
+        "\u{20000}", "\u{e1000}", "\u{efffd}", "\u{3b1}", "\u{301}",
+    ]
+}
+fn segment(min: usize, max: usize, no_colon: bool) -> BoxedStrategy<String> {
+    prop::collection::vec(pick(pchars()), min..=max)
+        .prop_map(move |v| {
+            let s: String = v.concat();
+            if no_colon {
+                s.replace(':', "_")
+            } else {
+                s
+            }
+        })
+        .boxed()
+}
+fn host() -> BoxedStrategy<String> {
+    let reg = prop::collection::vec(
+        pick(vec![
+            "a", "Z", "0", "-", ".", "_", "~", "!", "$", "&", "'", "(", ")", "*", "+", ",", ";", "=", "%41", "\u{e9}", "\u{d7ff}",
+            "\u{10000}", "example", "org",
+        ]),
+        0..5,
+    )
+    .prop_map(|v| v.concat());
+    prop_oneof![
+        80 => reg,
+        40 => pick_str(&["x", "example.org", "1.2.3.4", "255.255.255.255", "[::1]", "[::]",
+            "[::ffff:1.2.3.4]", "[1:2:3:4:5:6:7:8]", "[v7.a:b]", "[1:2:3:4:5:6:1.2.3.4]", "[::2:3]", "[A:B:c:d:0:00:000:0000]"]),
+        // valid per RFC 3986 but rejected by sophia_iri::Iri::new on the pinned tree (C09's subject): kept rare,
+        // such cases are counted as excluded/iri
+        1 => pick_str(&["[2001:db8::8:800:200c:417a]", "[1::8]", "[fe80::1]", "[A:b::]"]),
+    ]
+    .boxed()
+}
+/// RFC 3987 absolute IRIs, valid by construction.
+pub fn iri_gen() -> BoxedStrategy<String> {
+    let scheme = pick_str(&["http", "https", "urn", "tag", "file", "mailto", "a", "x-y.z+1", "HTTP", "s9"]);
+    let userinfo = prop_oneof![
+        4 => Just(String::new()),
+        1 => pick_str(&["u@", "u:p@", ":@", "%41@", "\u{e9}!$&'()*+,;=@", "@"]),
+    ];
+    let port = prop_oneof![3 => Just(String::new()), 1 => pick_str(&[":", ":80", ":0", ":65536"])];
+    let abempty = prop::collection::vec(segment(0, 3, false), 0..4)
+        .prop_map(|v| v.iter().map(|s| format!("/{s}")).collect::<String>());
+    let authority_form = (userinfo, host(), port, abempty.clone()).prop_map(|(u, h, p, path)| format!("//{u}{h}{p}{path}"));
+    let absolute = (segment(1, 3, false), abempty.clone()).prop_map(|(s, rest)| format!("/{s}{rest}"));
+    let rootless = (segment(1, 3, false), abempty).prop_map(|(s, rest)| format!("{s}{rest}"));
+    let hier = prop_oneof![
+        5 => authority_form,
+        1 => absolute,
+        1 => Just("/".to_string()),
+        2 => rootless,
+        1 => Just(String::new()),
+    ];
+    let qchars = {
+        let mut v = pchars();
+        v.extend(["/", "?", "\u{e000}", "\u{f8ff}", "\u{f0000}", "\u{10fffd}"]);
+        v
+    };
+    let fchars = {
+        let mut v = pchars();
+        v.extend(["/", "?"]);
+        v
+    };
+    let query = prop_oneof![
+        3 => Just(String::new()),
+        1 => prop::collection::vec(pick(qchars), 0..4).prop_map(|v| format!("?{}", v.concat())),
+    ];
+    let frag = prop_oneof![
+        3 => Just(String::new()),
+        1 => prop::collection::vec(pick(fchars), 0..4).prop_map(|v| format!("#{}", v.concat())),
+    ];
+    (scheme, hier, query, frag)
+        .prop_map(|(s, h, q, f)| format!("{s}:{h}{q}{f}"))
+        .boxed()
+}
+fn iri() -> BoxedStrategy<String> {
+    let mut pool = plain_iris();
+    pool.extend(vocab_iris());
+    prop_oneof![3 => pick(pool), 2 => iri_gen()].boxed()
+}
+
+fn rand_case(s: String, flips: Vec<bool>) -> String {
+    s.chars()
+        .enumerate()
+        .map(|(i, c)| if flips.get(i).copied().unwrap_or(false) { c.to_ascii_uppercase() } else { c })
+        .collect()
+}
+/// well-formed BCP47 language tags (RFC 5646 section 2.1), by construction
+pub fn tag_gen() -> BoxedStrategy<String> {
+    let language = pick_str(&["en", "fr", "de", "ja", "zh", "ast", "tlh", "zh-yue", "zh-cmn", "abcd", "abcde", "abcdefgh"]);
+    let script = prop_oneof![3 => Just(String::new()), 1 => pick_str(&["-latn", "-hani", "-cyrl"])];
+    let region = prop_oneof![2 => Just(String::new()), 1 => pick_str(&["-us", "-gb", "-056", "-419", "-de"])];
+    let variant = prop_oneof![
+        4 => Just(String::new()),
+        1 => pick_str(&["-nedis", "-1996", "-rozaj-biske", "-valencia", "-1abc", "-abcdefgh"]),
+    ];
+    let ext = prop_oneof![
+        4 => Just(String::new()),
+        1 => pick_str(&["-u-co-phonebk", "-a-bb", "-t-ab-cdefghij", "-a-bb-z-12345678", "-0-ab"]),
+    ];
+    let private = prop_oneof![4 => Just(String::new()), 1 => pick_str(&["-x-a", "-x-private1-2", "-x-12345678"])];
+    let regular = (language, script, region, variant, ext, private)
+        .prop_map(|(l, s, r, v, e, p)| format!("{l}{s}{r}{v}{e}{p}"));
+    let base = prop_oneof![
+        6 => regular,
+        1 => pick_str(&["x-priv", "x-a-b-c", "i-klingon", "en-gb-oed", "sgn-be-fr", "art-lojban", "i-default"]),
+        2 => pick(tags()).prop_map(|t| t.to_ascii_lowercase()),
+    ];
+    (base, prop::collection::vec(prop::bool::weighted(0.25), 0..24), 0..4u8)
+        .prop_map(|(t, flips, mode)| match mode {
+            0 => t,
+            1 => t.to_ascii_uppercase(),
+            _ => rand_case(t, flips),
+        })
+        .boxed()
+}
+
+fn lex() -> BoxedStrategy<String> {
+    prop_oneof![
+        4 => lexical(10),
+        1 => pick_str(&["\\", "\"", "\\\"", "\"\\", "\\n", "\\\\n", "\r", "\n", "\r\n", "a\rb", "\\u0041", "\\U00000041", "\\t",
+            "\"\"\"", "'", "\u{0}", " .", "<http://x> .", "^^<http://x/a>", "@en", "\"@en", "_:b .\n_:c", "#", "\u{feff}x",
+            "a\u{85}b", "a\u{2028}b", "\u{1F600}\\", "\t\u{b}\u{c}"]),
+        1 => prop::collection::vec(any::<char>(), 0..40).prop_map(|v| v.into_iter().collect::<String>()),
+    ]
+    .boxed()
+}
+
+fn literal() -> BoxedStrategy<MT> {
+    let dt = prop_oneof![4 => pick(datatypes()), 1 => iri_gen()];
+    prop_oneof![
+        3 => (lex(), dt).prop_map(|(l, d)| MT::Lit(l, d)),
+        2 => (lex(), tag_gen()).prop_map(|(l, t)| MT::Lang(l, t)),
+    ]
+    .boxed()
+}
+
+fn term(pos: char, depth: u32) -> BoxedStrategy<MT> {
+    let i = iri().prop_map(MT::Iri).boxed();
+    if pos == 'p' {
+        return i;
+    }
+    let b = label().prop_map(MT::Bnode).boxed();
+    let mut opts: Vec<(u32, BoxedStrategy<MT>)> = vec![(4, i), (4, b)];
+    if pos == 'o' {
+        opts.push((5, literal()));
+    }
+    if depth > 0 && pos != 'g' {
+        let tr = (term('s', depth - 1), term('p', 0), term('o', depth - 1)).prop_map(|(s, p, o)| MT::triple(s, p, o));
+        opts.push((2, tr.boxed()));
+    }
+    proptest::strategy::Union::new_weighted(opts).boxed()
+}
+
+fn quad() -> BoxedStrategy<MQ> {
+    let g = prop_oneof![2 => Just(None), 3 => term('g', 0).prop_map(Some)];
+    (term('s', 3), term('p', 0), term('o', 3), g)
+        .prop_map(|(s, p, o, g)| MQ::new(s, p, o, g))
+        .boxed()
+}
+
+// ---------------------------------------------------------------- domain checks (independent of the serialisers)
+
+fn w3c_label_ok(l: &str) -> bool {
+    // BLANK_NODE_LABEL (without "_:"), W3C grammar, minus ':' (not accepted by sophia)
+    let cs: Vec<char> = l.chars().collect();
+    let base = |c: char| {
+        matches!(c, 'A'..='Z' | 'a'..='z' | '\u{C0}'..='\u{D6}' | '\u{D8}'..='\u{F6}' | '\u{F8}'..='\u{2FF}'
+            | '\u{370}'..='\u{37D}' | '\u{37F}'..='\u{1FFF}' | '\u{200C}'..='\u{200D}' | '\u{2070}'..='\u{218F}'
+            | '\u{2C00}'..='\u{2FEF}' | '\u{3001}'..='\u{D7FF}' | '\u{F900}'..='\u{FDCF}' | '\u{FDF0}'..='\u{FFFD}'
+            | '\u{10000}'..='\u{EFFFF}')
+    };
+    let u = |c: char| base(c) || c == '_';
+    let pn = |c: char| u(c) || c == '-' || c.is_ascii_digit() || c == '\u{B7}' || matches!(c, '\u{300}'..='\u{36F}' | '\u{203F}'..='\u{2040}');
+    if cs.is_empty() || !(u(cs[0]) || cs[0].is_ascii_digit()) {
+        return false;
+    }
+    if cs.len() > 1 && !pn(*cs.last().unwrap()) {
+        return false;
+    }
+    cs[1..].iter().all(|&c| pn(c) || c == '.')
+}
+
+/// Is every component of the term inside the domain of the property (well-formed strict /
+/// RDF-star term with valid IRI, label, tag)?  Returns the reason when not.
+fn term_domain(t: &MT, pos: char) -> Result<(), String> {
+    match t {
+        MT::Iri(i) => sophia_iri::Iri::new(i.as_str()).map(|_| ()).map_err(|e| format!("iri: {e}")),
+        MT::Bnode(b) => {
+            if pos == 'p' {
+                return Err("blank node predicate".into());
+            }
+            if b.starts_with("riog") {
+                return Err("riog label".into());
+            }
+            if !w3c_label_ok(b) {
+                return Err(format!("label {b:?} not in BLANK_NODE_LABEL"));
+            }
+            BnodeId::new(b.as_str()).map(|_| ()).map_err(|e| format!("label: {e}"))
+        }
+        MT::Lit(_, d) => {
+            if pos != 'o' {
+                return Err("literal not in object position".into());
+            }
+            if d == RDF_LANGSTRING {
+                return Err("rdf:langString without tag".into());
+            }
+            sophia_iri::Iri::new(d.as_str()).map(|_| ()).map_err(|e| format!("datatype: {e}"))
+        }
+        MT::Lang(_, tag) => {
+            if pos != 'o' {
+                return Err("literal not in object position".into());
+            }
+            LanguageTag::new(tag.as_str()).map(|_| ()).map_err(|e| format!("tag: {e}"))
+        }
+        MT::Triple(tr) => {
+            if pos != 's' && pos != 'o' {
+                return Err("quoted triple in predicate/graph position".into());
+            }
+            term_domain(&tr[0], 's')?;
+            term_domain(&tr[1], 'p')?;
+            term_domain(&tr[2], 'o')
+        }
+        MT::Var(_) => Err("variable".into()),
+    }
+}
+fn quad_domain(q: &MQ) -> Result<(), String> {
+    term_domain(&q.s, 's')?;
+    if !q.p.is_iri() {
+        return Err("predicate is not an IRI".into());
+    }
+    term_domain(&q.p, 'p')?;
+    term_domain(&q.o, 'o')?;
+    if let Some(g) = &q.g {
+        term_domain(g, 'g')?;
+    }
+    Ok(())
+}
+
+// ---------------------------------------------------------------- system under test
+
+fn ser_nq(quads: &[MQ]) -> Result<String, String> {
+    let d: Vec<Spog<SimpleTerm<'static>>> = quads.iter().map(MQ::to_spog).collect();
+    let mut s = NqSerializer::new_stringifier();
+    s.serialize_dataset(&d).map_err(|e| format!("NqSerializer error: {e}"))?;
+    std::str::from_utf8(s.as_utf8())
+        .map(|x| x.to_string())
+        .map_err(|e| format!("NqSerializer output is not UTF-8: {e}"))
+}
+fn ser_nt(quads: &[MQ]) -> Result<String, String> {
+    let g: Vec<[SimpleTerm<'static>; 3]> = quads.iter().map(MQ::to_triple).collect();
+    let mut s = NtSerializer::new_stringifier();
+    s.serialize_graph(&g).map_err(|e| format!("NtSerializer error: {e}"))?;
+    std::str::from_utf8(s.as_utf8())
+        .map(|x| x.to_string())
+        .map_err(|e| format!("NtSerializer output is not UTF-8: {e}"))
+}
+fn proj(quads: &[MQ]) -> Vec<MQ> {
+    quads.iter().map(|q| MQ::new(q.s.clone(), q.p.clone(), q.o.clone(), None)).collect()
+}
+
+#[derive(Clone, Copy, Debug, PartialEq)]
+enum Stage {
+    NqLines,
+    NtLines,
+    SophiaNq,
+    SophiaNqCollect,
+    SophiaGnq,
+    ReaderNq,
+    SophiaNt,
+    SophiaNtCollect,
+    ReaderNt,
+}
+const STAGES: &[Stage] = &[
+    Stage::NqLines,
+    Stage::NtLines,
+    Stage::SophiaNq,
+    Stage::SophiaNqCollect,
+    Stage::SophiaGnq,
+    Stage::ReaderNq,
+    Stage::SophiaNt,
+    Stage::SophiaNtCollect,
+    Stage::ReaderNt,
+];
+impl Stage {
+    fn name(self) -> &'static str {
+        match self {
+            Stage::NqLines => "nq-lines",
+            Stage::NtLines => "nt-lines",
+            Stage::SophiaNq => "nq-parse",
+            Stage::SophiaNqCollect => "nq-collect",
+            Stage::SophiaGnq => "gnq-parse",
+            Stage::ReaderNq => "nq-reader",
+            Stage::SophiaNt => "nt-parse",
+            Stage::SophiaNtCollect => "nt-collect",
+            Stage::ReaderNt => "nt-reader",
+        }
+    }
+    fn is_nt(self) -> bool {
+        matches!(self, Stage::NtLines | Stage::SophiaNt | Stage::SophiaNtCollect | Stage::ReaderNt)
+    }
+}
+
+/// one statement per '\n'-terminated line: the text has exactly n lines, each of which is,
+/// on its own, exactly one statement for the independent reader, equal to the n-th input quad.
+fn check_lines(txt: &str, exp: &[MQ]) -> Result<(), String> {
+    if exp.is_empty() {
+        return if txt.is_empty() { Ok(()) } else { Err(format!("empty dataset serialised as {txt:?}")) };
+    }
+    if !txt.ends_with('\n') {
+        return Err("output does not end with a line feed".into());
+    }
+    if txt.contains('\r') {
+        return Err("raw carriage return in the output".into());
+    }
+    let lines: Vec<&str> = txt[..txt.len() - 1].split('\n').collect();
+    if lines.len() != exp.len() {
+        return Err(format!("{} statements serialised on {} lines", exp.len(), lines.len()));
+    }
+    for (i, l) in lines.iter().enumerate() {
+        match nqread::parse_nquads(l) {
+            Ok(v) if v.len() == 1 => {
+                if v[0] != exp[i] {
+                    return Err(format!("line {} reads as {} instead of {}", i + 1, v[0].show(), exp[i].show()));
+                }
+            }
+            Ok(v) => return Err(format!("line {} holds {} statements: {l:?}", i + 1, v.len())),
+            Err(e) => return Err(format!("line {} is not an N-Quads statement: {e}", i + 1)),
+        }
+    }
+    Ok(())
+}
+
+/// serialise + read back through one consumer
+fn roundtrip(stage: Stage, quads: &[MQ]) -> Result<Vec<MQ>, String> {
+    let exp: Vec<MQ> = if stage.is_nt() { proj(quads) } else { quads.to_vec() };
+    let txt = if stage.is_nt() { ser_nt(quads)? } else { ser_nq(quads)? };
+    let mut out: Vec<MQ> = vec![];
+    match stage {
+        Stage::NqLines | Stage::NtLines => {
+            check_lines(&txt, &exp)?;
+            return Ok(exp);
+        }
+        Stage::SophiaNq => {
+            let r = catch(|| nq::parse_str(&txt).for_each_quad(|q| out.push(MQ::from_quad(q))));
+            match r {
+                Ok(Ok(())) => {}
+                Ok(Err(e)) => return Err(format!("sophia nq parser rejects the output: {e}")),
+                Err(p) => return Err(format!("sophia nq parser panicked: {p}")),
+            }
+        }
+        Stage::SophiaNqCollect => {
+            let r = catch(|| nq::parse_str(&txt).collect_quads::<Vec<Spog<SimpleTerm<'static>>>>());
+            match r {
+                Ok(Ok(d)) => out = collect_dataset(&d),
+                Ok(Err(e)) => return Err(format!("sophia nq parser (collect_quads) rejects the output: {e}")),
+                Err(p) => return Err(format!("sophia nq parser (collect_quads) panicked: {p}")),
+            }
+        }
+        Stage::SophiaGnq => {
+            let r = catch(|| gnq::parse_str(&txt).for_each_quad(|q| out.push(MQ::from_quad(q))));
+            match r {
+                Ok(Ok(())) => {}
+                Ok(Err(e)) => return Err(format!("sophia gnq parser rejects the output: {e}")),
+                Err(p) => return Err(format!("sophia gnq parser panicked: {p}")),
+            }
+        }
+        Stage::SophiaNt => {
+            let r = catch(|| nt::parse_str(&txt).for_each_triple(|t| out.push(MQ::from_triple(t))));
+            match r {
+                Ok(Ok(())) => {}
+                Ok(Err(e)) => return Err(format!("sophia nt parser rejects the output: {e}")),
+                Err(p) => return Err(format!("sophia nt parser panicked: {p}")),
+            }
+        }
+        Stage::SophiaNtCollect => {
+            let r = catch(|| nt::parse_str(&txt).collect_triples::<Vec<[SimpleTerm<'static>; 3]>>());
+            match r {
+                Ok(Ok(g)) => out = collect_graph(&g),
+                Ok(Err(e)) => return Err(format!("sophia nt parser (collect_triples) rejects the output: {e}")),
+                Err(p) => return Err(format!("sophia nt parser (collect_triples) panicked: {p}")),
+            }
+        }
+        Stage::ReaderNq | Stage::ReaderNt => match nqread::parse_nquads(&txt) {
+            Ok(v) => out = v,
+            Err(e) => return Err(format!("independent N-Quads reader rejects the output: {e}")),
+        },
+    }
+    Ok(out)
+}
+
+/// multiset comparison (RDF term equality: tags case-insensitive); Err = description
+fn same_multiset(exp: &[MQ], got: &[MQ]) -> Result<u64, String> {
+    let e = sorted(exp.to_vec());
+    let g = sorted(got.to_vec());
+    if e.len() != g.len() || e.iter().zip(g.iter()).any(|(a, b)| a != b) {
+        let only_e: Vec<String> = e.iter().filter(|q| !g.contains(q)).map(MQ::show).collect();
+        let only_g: Vec<String> = g.iter().filter(|q| !e.contains(q)).map(MQ::show).collect();
+        return Err(format!(
+            "{} statements in, {} read back; lost/changed: {:?}; invented: {:?}",
+            e.len(),
+            g.len(),
+            only_e,
+            only_g
+        ));
+    }
+    Ok(e.iter().zip(g.iter()).filter(|(a, b)| !a.same_repr(b)).count() as u64)
+}
+
+fn stage_ok(stage: Stage, quads: &[MQ]) -> Result<u64, String> {
+    let exp: Vec<MQ> = if stage.is_nt() { proj(quads) } else { quads.to_vec() };
+    let got = roundtrip(stage, quads)?;
+    same_multiset(&exp, &got)
+}
+
+// ---------------------------------------------------------------- trigger analysis (signatures)
+
+fn char_class(c: char) -> &'static str {
+    match c {
+        '"' => "quote",
+        '\\' => "backslash",
+        '\n' => "lf",
+        '\r' => "cr",
+        '\t' => "tab",
+        '\u{0}' => "nul",
+        '\u{1}'..='\u{1f}' => "c0",
+        '\u{7f}' => "del",
+        '\u{80}'..='\u{9f}' => "c1",
+        '\u{2028}' | '\u{2029}' => "ls-ps",
+        ' ' => "space",
+        '\'' => "apostrophe",
+        c if (c as u32) > 0xFFFF => "non-bmp",
+        c if c.is_ascii() => "ascii",
+        _ => "non-ascii",
+    }
+}
+fn label_class(l: &str) -> &'static str {
+    if l.contains('.') {
+        "dot"
+    } else if l.starts_with(|c: char| c.is_ascii_digit()) {
+        "leading-digit"
+    } else if !l.is_ascii() {
+        "non-ascii"
+    } else if l.contains('-') || l.contains('_') {
+        "dash-underscore"
+    } else {
+        "plain"
+    }
+}
+fn neutral(t: &MT) -> MQ {
+    let s = MT::iri("http://x/s");
+    let p = MT::iri("http://x/p");
+    match t {
+        MT::Lit(..) | MT::Lang(..) => MQ::new(s, p, t.clone(), None),
+        _ => MQ::new(t.clone(), p.clone(), MT::iri("http://x/o"), None),
+    }
+}
+/// smallest trigger of a failure of `stage` on `quads`, as a stable key
+fn trigger(stage: Stage, quads: &[MQ]) -> String {
+    let bad = quads.iter().find(|q| stage_ok(stage, std::slice::from_ref(q)).is_err());
+    let Some(q) = bad else {
+        return "interaction-between-statements".into();
+    };
+    // does the graph name matter?
+    if let Some(g) = &q.g {
+        let mut q2 = q.clone();
+        q2.g = None;
+        if stage_ok(stage, &[q2]).is_ok() {
+            let gq = MQ::new(MT::iri("http://x/s"), MT::iri("http://x/p"), MT::iri("http://x/o"), Some(g.clone()));
+            if stage_ok(stage, &[gq]).is_err() {
+                return format!("graph-name/{}", term_trigger(stage, g));
+            }
+            return "graph-name/combination".into();
+        }
+    }
+    let mut cs = vec![];
+    q.s.constituents(&mut cs);
+    q.p.constituents(&mut cs);
+    q.o.constituents(&mut cs);
+    // innermost first: atoms before the triples that contain them
+    cs.sort_by_key(|t| t.depth());
+    for t in cs {
+        if stage_ok(stage, &[neutral(t)]).is_err() {
+            return term_trigger(stage, t);
+        }
+    }
+    "statement/combination-of-terms".into()
+}
+fn term_trigger(stage: Stage, t: &MT) -> String {
+    match t {
+        MT::Iri(_) => "iri".into(),
+        MT::Bnode(b) => format!("bnode-label/{}", label_class(b)),
+        MT::Triple(_) => "quoted-triple".into(),
+        MT::Var(_) => "variable".into(),
+        MT::Lit(l, d) => {
+            if stage_ok(stage, &[neutral(&MT::Lit("a".into(), d.clone()))]).is_err() {
+                return "datatype".into();
+            }
+            format!("lexical/{}", lex_trigger(stage, l, &|x: String| MT::Lit(x, d.clone())))
+        }
+        MT::Lang(l, tag) => {
+            if stage_ok(stage, &[neutral(&MT::Lang("a".into(), tag.clone()))]).is_err() {
+                return "language-tag".into();
+            }
+            format!("lexical/{}", lex_trigger(stage, l, &|x: String| MT::Lang(x, tag.clone())))
+        }
+    }
+}
+fn lex_trigger(stage: Stage, l: &str, mk: &dyn Fn(String) -> MT) -> String {
+    let mut seen = std::collections::BTreeSet::new();
+    for c in l.chars() {
+        if seen.insert(c) && stage_ok(stage, &[neutral(&mk(c.to_string()))]).is_err() {
+            return char_class(c).to_string();
+        }
+    }
+    // pairs of adjacent characters
+    let cs: Vec<char> = l.chars().collect();
+    for w in cs.windows(2) {
+        let s: String = w.iter().collect();
+        if stage_ok(stage, &[neutral(&mk(s))]).is_err() {
+            return format!("{}+{}", char_class(w[0]), char_class(w[1]));
+        }
+    }
+    "combination".into()
+}
+
+// ---------------------------------------------------------------- non-trivial rule
+
+fn lex_interesting(l: &str) -> bool {
+    l.chars().any(|c| !matches!(char_class(c), "ascii" | "space"))
+}
+fn term_interesting(t: &MT, ctx: &mut Ctx) -> bool {
+    match t {
+        MT::Iri(i) => {
+            if !i.is_ascii() {
+                ctx.class("iri:non-ascii");
+            }
+            if i.contains('[') {
+                ctx.class("iri:ip-literal");
+            }
+            if i.contains('%') {
+                ctx.class("iri:pct-encoded");
+            }
+            false
+        }
+        MT::Bnode(b) => {
+            let c = label_class(b);
+            ctx.class(format!("label:{c}"));
+            c != "plain"
+        }
+        MT::Lit(l, d) => {
+            for c in l.chars().map(char_class).collect::<std::collections::BTreeSet<_>>() {
+                ctx.class(format!("lex:{c}"));
+            }
+            if d == XSD_STRING {
+                ctx.class("literal:simple");
+            } else {
+                ctx.class("literal:typed");
+            }
+            lex_interesting(l)
+        }
+        MT::Lang(l, tag) => {
+            for c in l.chars().map(char_class).collect::<std::collections::BTreeSet<_>>() {
+                ctx.class(format!("lex:{c}"));
+            }
+            ctx.class("literal:lang");
+            if tag.chars().any(|c| c.is_ascii_uppercase()) {
+                ctx.class("tag:has-uppercase");
+            }
+            if tag.matches('-').count() >= 2 {
+                ctx.class("tag:3+subtags");
+            }
+            lex_interesting(l)
+        }
+        MT::Triple(tr) => {
+            ctx.class(format!("quoted:depth{}", t.depth()));
+            for x in tr.iter() {
+                term_interesting(x, ctx);
+            }
+            true
+        }
+        MT::Var(_) => false,
+    }
+}
+
+impl Check for C03 {
+    type Case = Case;
+    const ID: &'static str = "C03";
+    fn rule() -> String {
+        "strict/RDF-star datasets of 0..12 quads (grammar-generated RFC 3987 IRIs, BLANK_NODE_LABELs, BCP47 tags, lexical forms over all Unicode scalar values biased to escape-relevant characters, quoted triples to depth 3, IRI/blank graph names, duplicates kept) -> NqSerializer/NtSerializer -> {line structure, sophia nq/gnq/nt parsers (streamed and collected), independent W3C N-Quads reader}; oracle = the input, compared as a multiset term by term. Non-trivial = dataset with at least one of: a lexical form containing a character other than printable ASCII (quote, backslash, CR, LF, TAB, other controls, DEL, non-ASCII, non-BMP count), a blank node label that is not plain alphanumeric ASCII (dot, leading digit, '-', '_', non-ASCII), a quoted triple, or a blank node graph name; distinct by hash of the whole case.".into()
+    }
+    fn assumptions() -> Vec<String> {
+        vec![
+            "language tags are compared ASCII-case-insensitively (RDF term equality); exact-case drift is counted (counter tag_case_drift), not failed".into(),
+            "blank node labels starting with 'riog' are excluded (Rio's fresh-label space)".into(),
+            "domain: IRIs accepted by sophia_iri::Iri::new, labels by BnodeId::new and the W3C BLANK_NODE_LABEL production (no ':'), tags by LanguageTag::new and well-formed per RFC 5646; cases outside are counted as excluded/*".into(),
+            "the statement multiset is compared; statement order is additionally checked by the per-line stage (a Vec dataset is serialised in order)".into(),
+        ]
+    }
+    fn cases(tier: Tier) -> u32 {
+        tier.pick(150_000, 6_000_000)
+    }
+    fn strategy(_tier: Tier) -> BoxedStrategy<Case> {
+        (prop::collection::vec(quad(), 0..=12), prop::collection::vec((any::<prop::sample::Index>(), any::<prop::sample::Index>()), 0..3))
+            .prop_map(|(mut quads, dups)| {
+                // re-insert a few copies so that duplicates and shared terms occur
+                for (a, b) in dups {
+                    if !quads.is_empty() {
+                        let q = quads[a.index(quads.len())].clone();
+                        let at = b.index(quads.len() + 1);
+                        quads.insert(at, q);
+                    }
+                }
+                Case { quads }
+            })
+            .boxed()
+    }
+    fn fixed_cases(_tier: Tier, _seed: u64) -> Vec<Case> {
+        // every character of the nasty alphabet alone and next to a backslash / quote, in both literal kinds
+        let s = MT::iri("http://x/s");
+        let p = MT::iri("http://x/p");
+        let mut out = vec![Case { quads: vec![] }];
+        for &c in NASTY_CHARS {
+            for pat in [format!("{c}"), format!("\\{c}"), format!("{c}\\"), format!("\"{c}\""), format!("{c}{c}")] {
+                out.push(Case {
+                    quads: vec![
+                        MQ::new(s.clone(), p.clone(), MT::string(pat.clone()), None),
+                        MQ::new(s.clone(), p.clone(), MT::lang(pat.clone(), "en"), Some(MT::bn("g"))),
+                        MQ::new(MT::triple(s.clone(), p.clone(), MT::lit(pat, xsd("integer"))), p.clone(), s.clone(), None),
+                    ],
+                });
+            }
+        }
+        let mut labels = bnode_labels_exotic();
+        labels.extend(bnode_labels_plain());
+        for l in labels {
+            let b = MT::bn(l);
+            out.push(Case {
+                quads: vec![
+                    MQ::new(b.clone(), p.clone(), b.clone(), Some(b.clone())),
+                    MQ::new(MT::triple(b.clone(), p.clone(), b.clone()), p.clone(), MT::triple(b.clone(), p.clone(), b.clone()), None),
+                ],
+            });
+        }
+        out
+    }
+    fn run(case: &Case, ctx: &mut Ctx) {
+        let quads = &case.quads;
+        for q in quads {
+            if let Err(why) = quad_domain(q) {
+                let key = why.split(':').next().unwrap_or("other").to_string();
+                ctx.class(format!("excluded/{key}"));
+                if std::env::var_os("VERIF_C03_DEBUG").is_some() {
+                    eprintln!("excluded: {why} in {}", q.show());
+                }
+                return;
+            }
+        }
+        // classes + non-trivial rule
+        let mut interesting = false;
+        for q in quads {
+            for t in q.terms() {
+                interesting |= term_interesting(t, ctx);
+            }
+            match &q.g {
+                Some(MT::Bnode(_)) => {
+                    ctx.class("graph:blank");
+                    interesting = true;
+                }
+                Some(_) => ctx.class("graph:iri"),
+                None => ctx.class("graph:default"),
+            }
+        }
+        ctx.class(format!("size:{}", match quads.len() { 0 => "0", 1..=3 => "1-3", 4..=8 => "4-8", _ => "9+" }));
+        if sorted(quads.clone()).windows(2).any(|w| w[0] == w[1]) {
+            ctx.class("has-duplicate-statement");
+        }
+        if interesting {
+            ctx.nontrivial();
+        }
+        for &stage in STAGES {
+            match stage_ok(stage, quads) {
+                Ok(drift) => {
+                    if drift > 0 && stage == Stage::SophiaNq {
+                        ctx.count("tag_case_drift", drift);
+                    }
+                }
+                Err(e) => {
+                    let trig = trigger(stage, quads);
+                    let txt = if stage.is_nt() { ser_nt(quads) } else { ser_nq(quads) };
+                    ctx.fail(
+                        format!("{}/{}", stage.name(), trig),
+                        format!("{e}\ninput:\n{}\nserialised as:\n{}", show_quads(quads), txt.unwrap_or_else(|e| e)),
+                    );
+                    // the other stages would mostly repeat the same root cause
+                    if matches!(stage, Stage::NqLines | Stage::NtLines) {
+                        continue;
+                    }
+                    return;
+                }
+            }
+        }
+    }
+    fn show(case: &Case) -> serde_json::Value {
+        serde_json::json!({ "quads": case.quads.iter().map(MQ::show).collect::<Vec<_>>() })
+    }
+}
+
+pub fn main(opts: &Opts) -> i32 {
+    drive::<C03>(opts)
 }
 pub fn worker(_args: &[String]) -> i32 {
     2
